@@ -87,6 +87,8 @@ def t_ignore_filter(ex):
 
 
 PENDING = ([], ["._cfg0000_conf"], ["._cfg0000_conf", "._cfg0002_conf"], ["._cfg0001_conf", "._cfg0000_other", "._cfgXXXX_conf", "._cfg0007conf", "unrelated"], ["._cfg0003_conf", "._cfg0001_conf", "._cfg0002_conf"])
+# protected files whose own name contains the separator of the ._cfgNNNN_ prefix, or digits
+BASENAMES = ("conf", "sshd_config", "50_local.rules")
 
 
 def t_install_trigger(ex):
@@ -94,11 +96,12 @@ def t_install_trigger(ex):
     from pkgcore.fs import fs, contents
     offset = ("/", "/mnt/root")[ex.choose(2)]
     root = offset.rstrip("/")
-    pend = PENDING[ex.choose(len(PENDING))]
+    base = BASENAMES[ex.choose(len(BASENAMES))]
+    pend = [n.replace("conf", base) if n.endswith("conf") else n for n in PENDING[ex.choose(len(PENDING))]]
     prot, ign, same = bool(ex.choose(2)), bool(ex.choose(2)), bool(ex.choose(2))
-    P = f"C21.ConfigProtectInstall.trigger[offset={offset}, pending={pend}, {'protected' if prot else 'unprotected'}, {'ignored' if ign else 'not ignored'}, {'identical' if same else 'differs'}]"
+    P = f"C21.ConfigProtectInstall.trigger[offset={offset}, file={base}, pending={pend}, {'protected' if prot else 'unprotected'}, {'ignored' if ign else 'not ignored'}, {'identical' if same else 'differs'}]"
     it = Interp(ex, label=P)
-    loc = root + "/etc/conf"
+    loc = root + "/etc/" + base
     new = fs.fsFile(loc, strict=False, mode=0o644)
     other = fs.fsFile(root + "/usr/bin/tool", strict=False)
     live = fs.fsFile(loc, strict=False, mode=0o600)
@@ -132,7 +135,7 @@ def t_install_trigger(ex):
     if not (prot and not ign and not same):
         ex.oblige(f"{P}.ensures.entries_that_need_no_protection_are_left_alone", locs == sorted([loc, other.location]) and not renames)
         return
-    valid = sorted((int(n[5:9]), n) for n in pend if n.startswith("._cfg") and n[5:9].isdigit() and n[9:10] == "_" and n[10:] == "conf")
+    valid = sorted((int(n[5:9]), n) for n in pend if n.startswith("._cfg") and n[5:9].isdigit() and n[9:10] == "_" and n[10:] == base)
     number = None
     seen_max = -1
     for num, name in valid:   # in directory listing order (sorted), as the property reads "an identical pending update"
@@ -142,7 +145,7 @@ def t_install_trigger(ex):
         seen_max = max(seen_max, num)
     if number is None:
         number = max([n for n, _ in valid], default=-1) + 1
-    want_loc = f"{root}/etc/._cfg{number:04d}_conf"
+    want_loc = f"{root}/etc/._cfg{number:04d}_{base}"
     ex.oblige(f"{P}.ensures.pending_updates_are_looked_up_beside_the_file", asked_dirs == [root + "/etc"])
     ex.oblige(f"{P}.ensures.incoming_file_is_renamed_to_the_right_cfg_number", locs == sorted([want_loc, other.location]), note=f"install set now {locs}, wanted {want_loc}; identical-content answers {same_as}")
     ok_ren = len(renames) == 1 and [(k.location, v.location) for k, v in renames.items()] == [(want_loc, loc)]
@@ -201,7 +204,7 @@ def enum_roots(seed):
             if envd:
                 open(os.path.join(root, "etc/env.d/10settings"), "w").write(envd)
             files = {}
-            for rel in rnd.sample(["etc/a.conf", "etc/sub/b.conf", "etc/masked/c.conf", "opt/conf/d", "opt/confx/e", "usr/share/f", "var/lib/ign/g"], 4):
+            for rel in rnd.sample(["etc/a.conf", "etc/sub/b.conf", "etc/masked/c.conf", "opt/conf/d", "opt/confx/e", "usr/share/f", "var/lib/ign/g", "etc/sshd_config", "etc/sub/50_local.rules"], 5):
                 state = rnd.choice(("absent", "same", "edited", "edited"))
                 files[rel] = state
                 p = os.path.join(img, rel)
